@@ -313,3 +313,47 @@ pub fn vec_to_stream(l1: usize, l2: usize, cap: usize, drains: &[usize]) {
     witness!("tags compared");
     std::mem::forget((b, rx, tx, out, all, e));
 }
+
+/// Delay whose delay is shortened mid-stream (set_delay): the next (d0-d1) input samples
+/// are dropped together with their tags; surviving tags are shifted by the new delay.
+pub fn delay_shorten(n1: usize, n2: usize, d0: usize, d1: usize, cap: usize, feeds2: &[(usize, usize)], tagpos: &[usize]) {
+    let l = n1 + n2;
+    let input = sym_vec::<u8>(l);
+    let tags = in_tags(tagpos);
+    let mut r = Rig11::new(cap, cap, &|src| Delay::new(src, d0));
+    // phase 1: first n1 samples through, fully drained
+    let mut k = 0;
+    while k < n1 + d0 + 3 {
+        let remaining = if r.next < n1 { n1 - r.next } else { 0 };
+        feed(&r.tx, &input, &mut r.next, remaining, &tags);
+        drain(&r.rx, usize::MAX, &mut r.out);
+        let _ = work_once(&mut r.b);
+        k += 1;
+    }
+    drain(&r.rx, usize::MAX, &mut r.out);
+    assert!(r.out.data.len() == d0 + n1, "BOUND: phase 1 not complete");
+    r.b.set_delay(d1);
+    // phase 2: scheduled delivery of the rest, then flush
+    for (f, d) in feeds2 {
+        let v = r.step(&input, &tags, *f, *d);
+        assert!(v != Verdict::Err);
+    }
+    r.flush(&input, &tags, n2 + 4);
+    let skip = d0 - d1;
+    let kept = if n2 > skip { n2 - skip } else { 0 };
+    assert!(r.out.data.len() == d0 + n1 + kept, "output count after shortening the delay differs from (delay + input - dropped)");
+    for i in 0..kept {
+        assert!(r.out.data[d0 + n1 + i] == input[n1 + skip + i], "wrong samples survive a shortened delay");
+    }
+    let mut e = Vec::with_capacity(4);
+    for t in tags.iter() {
+        if t.abs < n1 {
+            e.push(etag(t.abs + d0, t.key_str(), 1, t.val));
+        } else if t.abs >= n1 + skip {
+            e.push(etag(t.abs + d1, t.key_str(), 1, t.val));
+        }
+    }
+    check_tags(&r.out, &e);
+    witness!("tags compared");
+    std::mem::forget((r, input, tags, e));
+}
